@@ -656,7 +656,7 @@ class Typer:
     def prop_type(self, kind, pname):
         """type of the public property `pname` on IR kind, derived from its getter body:
         `return self._f` or `return <View>(self._f)`"""
-        key = (id(self.P), kind, pname)
+        key = (self.P.serial, kind, pname)
         if key in Typer._prop_cache:
             return Typer._prop_cache[key]
         res = None
@@ -786,7 +786,7 @@ class Typer:
     def method_ret(self, kind, mname):
         """return type of an IR method: create_* style (returns a local built by a
         constructor), or a private field / view of it.  None = unknown."""
-        key = (id(self.P), kind, mname)
+        key = (self.P.serial, kind, mname)
         if key in Typer._ret_cache:
             return Typer._ret_cache[key]
         Typer._ret_cache[key] = None  # recursion guard
